@@ -199,7 +199,18 @@ def c13_named_variable_substring(v):
 @predicate
 def c13_symbolic_bounds_rounded(v):
     r = v['record']
-    if not (r.get('clause', '').startswith('bounds:the bounds constraint clips into the box') and r.get('symbolic') is True):
+    if r.get('symbolic') is not True: return False
+    if r.get('clause', '').startswith('bounds:the bounds constraint is the identity inside the box'):
+        # same mechanism seen from inside: a point sitting exactly ON a bound that needs more than 15 digits is moved to the 15-digit rounding of that bound
+        x, y, lo, hi = r.get('x'), r.get('y'), r.get('lo'), r.get('hi')
+        if not (x and y and lo and hi and len(x) == len(y) == len(lo) == len(hi)): return False
+        moved = [j for j in range(len(x)) if y[j] != x[j]]
+        def rounded_bound(j):
+            for b in (lo[j], hi[j]):
+                if isinstance(b, (int, float)) and b == b and abs(b) != float('inf') and x[j] == b and float('%.15g' % b) != b and y[j] == float('%.15g' % b): return True
+            return False
+        return bool(moved) and all(rounded_bound(j) for j in moved)
+    if not r.get('clause', '').startswith('bounds:the bounds constraint clips into the box'):
         return False
     ok, nd, nr = _c13_outside_explained(r)
     return ok and nr >= 1
